@@ -34,7 +34,12 @@ def run(prog, job: dict) -> dict:
         arity = 3 if physical == 1 else 4
         n = 7
         stmts = [tuple(C.base(f"s{i}", arity)) for i in range(n)]
-        opts = P.make_options(k, logical=logical, frame_size=fs, generalized=False, rdf_star=False)
+        if job.get("explicit_flow"):
+            # the caller supplies the bounded flow: its own frame_size is the bound, options.frame_size is irrelevant
+            fl = k.flow("FlatTriplesFrameFlow" if physical == 1 else "FlatQuadsFrameFlow", frame_size=fs)
+            opts = P.make_options(k, logical=None, frame_size=250, generalized=False, rdf_star=False, flow=fl)
+        else:
+            opts = P.make_options(k, logical=logical, frame_size=fs, generalized=False, rdf_star=False)
         state: dict[str, Any] = {"stream": None, "pending_at_pull": [], "frames_at_pull": []}
         received: list = []
 
@@ -111,6 +116,9 @@ def check(chk: Check) -> None:
             for logical in (flat_lt, None):
                 for fs in (1, 3, 6, 250):
                     jobs.append(dict(name=name, integ=integ, kind=kind, physical=physical, frame_size=fs, logical=logical))
+            if kind == "stream_frames":
+                for fs in (1, 3, 6):
+                    jobs.append(dict(name=name + " [caller-supplied flow]", integ=integ, kind=kind, physical=physical, frame_size=fs, logical="explicit-flow", explicit_flow=True))
     for res in pmap(run, jobs):
         chk.functions.update(res["funcs"])
         jb = res["job"]
@@ -146,10 +154,13 @@ def check(chk: Check) -> None:
         for j in (1, 2, 4):
             for integ in ("generic", "rdflib"):
                 for parser in ("parse_jelly_flat", "parse_jelly_grouped"):
-                    ljobs.append(dict(physical=physical, complete=j, cut="torn", integ=integ, parser=parser))
+                    for src in ("seekable", "raw-nonseekable", "buffered-nonseekable"):
+                        if src != "seekable" and (physical != 1 or j == 4):
+                            continue
+                        ljobs.append(dict(physical=physical, complete=j, cut="torn", integ=integ, parser=parser, source=src))
     for res in pmap(c10.run, ljobs):
         jb = res["job"]
-        inst = f"{jb['integ']}.{jb['parser']} physical={jb['physical']} source stalls after frame {jb['complete']}"
+        inst = f"{jb['integ']}.{jb['parser']} physical={jb['physical']} {jb.get('source', 'seekable')} source stalls after frame {jb['complete']}"
         for p in res["paths"]:
             chk.paths += 1
             flat = tuple(x for s in p["got"] for x in s) if jb["parser"].endswith("grouped") else p["got"]
